@@ -123,6 +123,28 @@ def _match(baseline: list[dict], body: list[str]) -> list[dict]:
     return res
 
 
+def _run_exported(text: str) -> list[tuple[str, str, bool]]:
+    if not text:
+        return []
+    lines = text.splitlines()
+    marked = {ln.split("(")[0][4:]: ("xfail" in lines[i - 1]) for i, ln in enumerate(lines) if ln.startswith("def test_")}
+    ns: dict = {"__name__": "exported_test"}
+    try:
+        exec(compile(text, "<exported>", "exec"), ns)  # noqa: S102
+    except BaseException as ex:  # noqa: BLE001
+        return [("<module>", f"error:{type(ex).__name__}", False)]
+    out = []
+    for name, is_marked in marked.items():
+        fn = ns[name]
+        fn = getattr(fn, "__wrapped__", fn)
+        try:
+            fn()
+            out.append((name, "xpassed" if is_marked else "passed", is_marked))
+        except BaseException as ex:  # noqa: BLE001
+            out.append((name, "xfailed" if is_marked else f"failed:{type(ex).__name__}", is_marked))
+    return out
+
+
 def run_case(args) -> dict:
     """args = (case, workdir): case = {"tests": [prog, ...]}.  Returns {"ev": [...]} with one group of
     events per minimisation configuration."""
@@ -147,6 +169,14 @@ def run_case(args) -> dict:
         base += len(prog)
     if case.get("assertions", True):
         suite0.accept(ag.AssertionGenerator(executor))
+        # mutation-analysis based generation keeps only the assertions that kill a mutant: statements
+        # lose their assertions irregularly.  mask = which statements keep theirs.
+        mask = case.get("mask")
+        if mask:
+            for c in suite0.test_case_chromosomes:
+                for i, statement in enumerate(c.test_case.statements()):
+                    if (i % 2 == 0) == (mask == "even"):
+                        statement.assertions.clear()
     baseline = [snapshot(c.test_case) for c in suite0.test_case_chromosomes]
     evs = []
     Path(workdir).mkdir(parents=True, exist_ok=True)
@@ -177,6 +207,9 @@ def run_case(args) -> dict:
             text = out.read_text()
         funcs = _functions(text)
         label = f"{strategy}/{direction}"
+        # C18: the exported functions run against the module (tracer off): all pass unless xfail-marked
+        for name, outcome, marked in _run_exported(text):
+            evs.append({"ev": "Test", "cfg": label, "name": name, "outcome": outcome, "xfail_marked": marked})
         # C19: every oracle after its statement in the exported function of its test
         for ti, tb in enumerate(baseline):
             best = None
